@@ -192,3 +192,8 @@ func verifPick(site string, cases ...bool) int {
 // harness is installed; such selects are resolved deterministically in favour
 // of one case whose outcome is also reachable by an ordinary interleaving.
 func verifBoth(a, b bool) bool { return VerifPick != nil && a && b }
+
+// VerifSetBufferSize replaces the upload buffer (16 MiB in production) by one
+// of n bytes so that the flush arithmetic can be explored at small scale. It
+// must be called before the first Write.
+func (s *UploadStream) VerifSetBufferSize(n int) { s.buffer = make([]byte, n) }
